@@ -15,7 +15,10 @@ RULE = ("EXHAUSTIVE over the mass table of /repo: for every tolerance in {0.01, 
         "12…40 types and with all 117 elements at once), and for structures ASSEMBLED from pieces that bring their own atom "
         "types of differing masses (extend with automatic type extension, extend_types + extend(offsets), two extensions, "
         "replace_pattern_in_structure with a replacement introducing new elements): per-atom "
-        "elements before writing vs after reading; every keyword of both entry points at default / edge / "
+        "elements before writing vs after reading; and through EVERY public entry point (save_lmpdat / load_lmpdat directly, "
+        "Atoms.save / Atoms.load with str path, pathlib.Path, explicit filetype=, open file; all 75 writer x reader x "
+        "atom_format {not passed, full, atomic} combinations; file_comment / guess_atol passed or not) for structures made by "
+        "elements=, Atoms.from_ase_atoms, copy(), a[idx] or read from a file, judged on .elements and .symbols; every keyword of both entry points at default / edge / "
         "non-default values (max_delta / guess_atol = 0, 0.0, numpy 0.0, 1e-9, negative, 1, 1e6, 1e300; positional and keyword "
         "spellings; atom_format full / atomic; Atoms.load(..., filetype='lmpdat', **kw)); SEQUENCES of calls in one process "
         "with the same masses and different tolerances (large first, small first, back again; mixed entry points), each "
@@ -262,6 +265,113 @@ def real_assembled(rec):
                     "before": before, "after": [str(e) for e in b.elements], "text": text}
     except Exception as e:  # noqa
         return _exc(e)
+
+
+def real_cycle(rec):
+    """write -> read through every public entry point.  rec: elements (ground truth, one atom each, repeats allowed),
+    source (how the structure to be written comes into being: elements= constructor, Atoms.from_ase_atoms, copy(),
+    subset a[idx], a structure that was itself read from a file), writer / reader (direct save_lmpdat / load_lmpdat on
+    StringIO, or the dispatchers Atoms.save / Atoms.load with a str path, a pathlib.Path, an open file + filetype=),
+    atom_format (None = keyword not passed, "full", "atomic"; the same on both sides), comment (file_comment= passed),
+    atol (None = guess_atol not passed)."""
+    import os
+    import pathlib
+    import tempfile
+    import numpy as np
+    from mofun import Atoms
+    els = list(rec["elements"])
+    n = len(els)
+    pos = [[1.5 * i, 0.25 + 0.5 * (i % 3), 0.125 * i] for i in range(n)]
+    fmt, atol = rec.get("atom_format"), rec.get("atol")
+    wkw = {} if fmt is None else {"atom_format": fmt}
+    if rec.get("comment"):
+        wkw["file_comment"] = "verif cycle"
+    rkw = dict({} if fmt is None else {"atom_format": fmt}, **({} if atol is None else {"guess_atol": atol}))
+
+    def write(a, how, path):
+        if how == "save_lmpdat":
+            with open(path, "w") as fh:
+                a.save_lmpdat(fh, **wkw)
+        elif how == "save-path":
+            a.save(path, **wkw)
+        elif how == "save-pathlib":
+            a.save(pathlib.Path(path), **wkw)
+        elif how == "save-filetype":
+            a.save(path[:-7] + ".dat", filetype="lmpdat", **wkw)
+            os.replace(path[:-7] + ".dat", path)
+        else:
+            with open(path, "w") as fh:
+                a.save(fh, filetype="lmpdat", **wkw)
+
+    def read(how, path):
+        if how == "load_lmpdat":
+            with open(path) as fh:
+                return Atoms.load_lmpdat(fh, **rkw)
+        if how == "load-path":
+            return Atoms.load(path, **rkw)
+        if how == "load-pathlib":
+            return Atoms.load(pathlib.Path(path), **rkw)
+        if how == "load-filetype":
+            return Atoms.load(path, filetype="lmpdat", **rkw)
+        with open(path) as fh:
+            return Atoms.load(fh, filetype="lmpdat", **rkw)
+    try:
+        with core.quiet(), tempfile.TemporaryDirectory(prefix="verif_c14_") as tmp:
+            path = os.path.join(tmp, "cycle.lmpdat")
+            src = rec.get("source", "elements")
+            cell = 60.0 * np.identity(3)
+            if src == "ase":
+                import ase
+                a = Atoms.from_ase_atoms(ase.Atoms(els, positions=pos, cell=cell, pbc=True))
+            else:
+                a = Atoms(elements=els, positions=pos, cell=cell)
+            want = els
+            if src == "copy":
+                a = a.copy()
+            elif src == "subset":
+                idx = list(rec["idx"])
+                a = a[idx]
+                want = [els[i] for i in idx]
+            elif src == "reloaded":          # the structure to be written was itself read from a file (direct functions)
+                with open(path, "w") as fh:
+                    a.save_lmpdat(fh)
+                with open(path) as fh:
+                    a = Atoms.load_lmpdat(fh)
+            before = {"elements": [str(e) for e in a.elements], "symbols": [str(e) for e in a.symbols]}
+            write(a, rec["writer"], path)
+            text = open(path).read()
+            b = read(rec["reader"], path)
+            os.remove(path)
+            return {"ok": {"elements": [str(e) for e in b.atom_type_elements], "labels": [str(e) for e in b.atom_type_labels]},
+                    "want": want, "before": before, "after": {"elements": [str(e) for e in b.elements], "symbols": [str(e) for e in b.symbols]},
+                    "text": text}
+    except Exception as e:  # noqa
+        return _exc(e)
+
+
+def oracle_cycle(T, sep, rec, r):
+    if "ok" not in r:
+        return "write/read cycle (%s -> %s, atom_format=%r) raised %s" % (rec["writer"], rec["reader"], rec.get("atom_format"), r.get("err"))
+    want = r["want"]
+    for when in ("before", "after"):
+        for acc in ("elements", "symbols"):
+            got = r[when][acc]
+            if len(got) != len(want):
+                return ".%s has %d entries %s the cycle, the structure has %d atoms" % (acc, len(got), when, len(want))
+            for i, (e, g) in enumerate(zip(want, got)):
+                if e in sep and g != e:
+                    return ("atom %d: element %s (mass distinguishable from all others) is %s in .%s %s the write/read cycle "
+                            "%s -> %s, atom_format=%r (structure %s, got %s)"
+                            % (i, e, g, acc, when, rec["writer"], rec["reader"], rec.get("atom_format"), want, got))
+    ms, cs = masses_section(r["text"])
+    if len(ms) != len(r["ok"]["elements"]):
+        return "%d Masses lines, %d types read" % (len(ms), len(r["ok"]["elements"]))
+    tol = rec.get("atol") or 0.1
+    for k, (m, g) in enumerate(zip(ms, r["ok"]["elements"])):
+        bad = oracle_one(T, fr(m), fr(tol), g)
+        if bad:
+            return "type %d: %s" % (k + 1, bad)
+    return None
 
 
 def oracle_assembled(T, sep, rec, r):
@@ -686,6 +796,45 @@ def run(ctx, oracle_only=False):
             impls.append({"ok": r["ok"]})
             skip.append(any(ambiguous(T, fr(m), fr(0.1)) for m in ms))
 
+    # 4c. the cycle through EVERY public entry point: direct functions and the dispatchers Atoms.save / Atoms.load (str path,
+    #     pathlib.Path, explicit filetype=, open file), atom_format not passed / "full" / "atomic", file_comment, guess_atol;
+    #     structures coming from elements=, from_ase_atoms, copy(), a[idx], or from a file; .elements and .symbols
+    import ase.data
+    ase_ok = [x for x in syms if x in ase.data.chemical_symbols]
+    writers = ["save_lmpdat", "save-path", "save-pathlib", "save-filetype", "save-file"]
+    readers = ["load_lmpdat", "load-path", "load-pathlib", "load-filetype", "load-file"]
+    sources = ["elements", "ase", "copy", "subset", "reloaded"]
+    combos = [(w, rd, f) for w in writers for rd in readers for f in (None, "full", "atomic")]
+    rng.shuffle(combos)
+    if ctx.tier != "quick":
+        combos = combos * 6
+    for k, (w, rd, fmt) in enumerate(combos):
+        src = sources[k % len(sources)] if k >= 5 else "elements"
+        pool = ase_ok if src == "ase" else syms
+        els = rng.sample(pool, rng.randint(2, 8))
+        if rng.random() < 0.5:
+            els += [rng.choice(els) for _ in range(rng.randint(1, 3))]
+        if k == 0:
+            els = ["Ar", "K", "Co", "Ni"]
+        rec = {"op": "cycle", "elements": els, "source": src, "writer": w, "reader": rd, "atom_format": fmt,
+               "comment": k % 3 == 1, "atol": [None, None, 0.1][k % 3]}
+        if src == "subset":
+            rec["idx"] = sorted(rng.sample(range(len(els)), rng.randint(1, len(els))), reverse=(k % 2 == 0))
+        r = real_cycle(rec)
+        ctx.case(rec, nontrivial=True)
+        ctx.count("cycle:%s->%s" % (w, rd))
+        ctx.count("cycle-format:%s" % fmt)
+        ctx.count("cycle-source:%s" % src)
+        bad = oracle_cycle(T, sep, rec, r)
+        if bad:
+            ctx.fail(bad, rec, observed={k2: v for k2, v in r.items() if k2 != "text"},
+                     required="every atom whose element has a mass at least 0.2 away from all other table masses has the same element after the write/read cycle, through every entry point")
+        elif "ok" in r:
+            ms, cs = masses_section(r["text"])
+            ops.append({"op": "load_elements", "masses": [core.q(m) for m in ms], "tol": core.q(0.1), "comments": cs, "kind": "cycle"})
+            impls.append({"ok": r["ok"]})
+            skip.append(any(ambiguous(T, fr(m), fr(0.1)) for m in ms))
+
     bad = table_check(T)
     ctx.case({"op": "table-check", "stage": "end", "constructs": []}, nontrivial=False)
     if bad:
@@ -739,6 +888,8 @@ def search(ctx):
 def replay(ctx, rec):
     inp = rec["input"]
     T = table()
+    if inp["op"] == "cycle":
+        return oracle_cycle(T, separated(T, Fraction(1, 10)), inp, real_cycle(inp)) is None
     if inp["op"] == "assembled":
         return oracle_assembled(T, separated(T, Fraction(1, 10)), inp, real_assembled(inp)) is None
     if inp["op"] == "roundtrip":
